@@ -382,15 +382,19 @@ func (s *Store) mergeSegStacks(footer *Footer, splicePoint int,
 		if len(rv.childSegStacks) == 0 {
 			rv.childSegStacks = make(map[string]*segmentStack)
 		}
+		// The splice point only describes the segments of the top-level
+		// collection.  A child collection has its own, unrelated number
+		// of persisted segments, so all of them are compacted, which
+		// also gives merge operations of the child their full chain.
 		if footer == nil {
 			rv.childSegStacks[cName], _ =
-				s.mergeSegStacks(nil, splicePoint, newStack)
+				s.mergeSegStacks(nil, 0, newStack)
 			continue
 		}
 
 		childFooter, exists := footer.ChildFooters[cName]
 		if exists {
-			if childFooter.incarNum != higher.incarNum {
+			if childFooter.incarNum != newStack.incarNum {
 				// Fast child collection recreation, must not merge
 				// segments from prior incarnation.
 				childFooter = nil
@@ -398,7 +402,7 @@ func (s *Store) mergeSegStacks(footer *Footer, splicePoint int,
 		}
 
 		rv.childSegStacks[cName], _ =
-			s.mergeSegStacks(childFooter, splicePoint, newStack)
+			s.mergeSegStacks(childFooter, 0, newStack)
 	}
 
 	return rv, rvBase
@@ -410,18 +414,8 @@ func (right *Footer) spliceFooter(left *Footer, splicePoint int) {
 	slocs = append(slocs, right.SegmentLocs...)
 	right.SegmentLocs = slocs
 
-	for cName, childFooter := range right.ChildFooters {
-		storeChildFooter, exists := left.ChildFooters[cName]
-		if exists {
-			if storeChildFooter.incarNum != childFooter.incarNum {
-				// Fast child collection recreation, ok to drop store footer's
-				// segments from prior incarnation.
-				continue
-			}
-
-			childFooter.spliceFooter(storeChildFooter, splicePoint)
-		}
-	}
+	// The child collections were compacted completely (see
+	// mergeSegStacks), so there is nothing to splice in for them.
 }
 
 func (s *Store) writeSegments(newSS, base *segmentStack,
@@ -486,7 +480,8 @@ func (s *Store) writeSegments(newSS, base *segmentStack,
 	}
 
 	compactFooter = &Footer{
-		refs: 1,
+		refs:     1,
+		incarNum: newSS.incarNum,
 		SegmentLocs: []SegmentLoc{
 			{
 				Kind:       SegmentKindBasic,
@@ -507,13 +502,9 @@ func (s *Store) writeSegments(newSS, base *segmentStack,
 			compactFooter.ChildFooters = make(map[string]*Footer)
 		}
 
-		// TODO: IMPORTANT: See MB-29664 - merge-operators, child
-		// collections, and partial/leveled compaction does not work
-		// correctly.  You need to use full compaction if you're using
-		// merge-operators with child collections.  The fix will be to
-		// compute and provide the right childSegStackBase to the
-		// recursive writeSegments() calls.
-		//
+		// A child collection is always compacted completely, even when
+		// the top-level collection is only partially compacted, so
+		// there is no base of untouched segments below its childSegStack.
 		var childSegStackBase *segmentStack
 
 		childFooter, err := s.writeSegments(childSegStack, childSegStackBase,
